@@ -93,14 +93,16 @@ def run(chk):
             npanic += 1
         else:
             vc = parse_voronoi_tok(Tok(C))
+            # the embedding has aspect ratio (unit thickness) : (active extent); for active extents << 1 see finding F4
+            slabkey = 'slab-tiny' if max(inp.nw[a] for a in range(d)) < Fraction(1, 1000) else 'slab'
             for i in range(inp.n):
                 ca, cc = va['cells'][i], vc['cells'][i]
                 where = 'record %d (%s) cell %d' % (r.id, r.family, i)
                 if ca.volume is None or cc.volume is None or abs(ca.volume - cc.volume) > 2 * tol.vol:
-                    chk.violation('impl-vs-impl', '%dD cell measure %s differs from the 3D build of the unit slab %s, %s' % (d, fl(ca.volume), fl(cc.volume), where), rp, key='slab')
+                    chk.violation('impl-vs-impl', '%dD cell measure %s differs from the 3D build of the unit slab %s, %s' % (d, fl(ca.volume), fl(cc.volume), where), rp, key=slabkey)
                     continue
                 if ca.volume > 1000 * tol.vol and not close3(ca.centroid, cc.centroid, 10 * tol.pos):
-                    chk.violation('impl-vs-impl', '%dD cell centroid %s differs from the 3D build of the unit slab %s, %s' % (d, fl3(ca.centroid), fl3(cc.centroid), where), rp, key='slab')
+                    chk.violation('impl-vs-impl', '%dD cell centroid %s differs from the 3D build of the unit slab %s, %s' % (d, fl3(ca.centroid), fl3(cc.centroid), where), rp, key=slabkey)
                     continue
 
                 def inplane(v, c, threed):
@@ -122,7 +124,7 @@ def run(chk):
                 fa, fc = inplane(va, ca, False), inplane(vc, cc, True)
                 for k in set(fa) | set(fc):
                     if abs(fa.get(k, 0) - fc.get(k, 0)) > 8 * tol.area:
-                        key = 'gen-on-wall' if (k == 'wall' and gen_on_wall(inp, i)) else 'slab'
+                        key = 'gen-on-wall' if (k == 'wall' and gen_on_wall(inp, i)) else slabkey
                         chk.violation('impl-vs-impl', '%dD face area towards %s is %s, in the 3D slab build %s, %s' % (d, k, fl(fa.get(k, 0)), fl(fc.get(k, 0)), where), rp, key=key)
                         break
         chk.traces += 1
